@@ -268,7 +268,7 @@ package transport
 // still in flight).
 //@ func (t *ReuseConnTransport) exchangeConnCtx(ctx context.Context, payload []byte, c *reusableConn) (r *dnsmsg.Msg, err error)
 //@   props C06
-//@   requires t != nil && c != nil && ctx != nil
+//@   requires t != nil && c != nil && ctx != nil && c.c != nil && c.idleTimer != nil && t.idleConns != nil && t.conns != nil && !sameObj(t.idleConns, t.conns) && c.serving && t.logger != nil
 //@   ghost nRel int = 0
 //@   ghost nGo int = 0
 //@   oncall releaseConn?: nRel = nRel + 1
